@@ -281,6 +281,26 @@ mut("c17_change_rank_accepts_taken", "C17", "stream.c",
             ABTD_spinlock_release(&p_global->xstream_list_lock);
             return ABT_FALSE;
         } else if (p_next->rank > rank) {""", "ABT_xstream_set_rank grants a taken rank when it is small")
+mut("c14_no_free_unit_on_move_to_builtin", "C14", "include/abti_unit.h",
+    """        ABTI_unit_unmap_thread(p_global, unit);
+        ABT_pool old_pool = ABTI_pool_get_handle(p_thread->p_pool);
+        p_thread->p_pool->required_def.p_free_unit(old_pool, unit);
+        ABTI_unit_init_builtin(p_thread);""",
+    """        ABTI_unit_unmap_thread(p_global, unit);
+        ABTI_unit_init_builtin(p_thread);""", "free_unit is skipped when a unit leaves a user pool for a built-in pool")
+mut("c14_map_reuses_live_entry", "C14", "unit.c",
+    """        if (atomic_relaxed_load_unit(&p_cur->unit) == ABT_UNIT_NULL) {
+            /* Empty element has been found.  Let's use this. */""",
+    """        if (atomic_relaxed_load_unit(&p_cur->unit) == ABT_UNIT_NULL ||
+            (p_cur->p_next && p_cur->p_next->p_next && !p_cur->p_next->p_next->p_next)) {
+            /* Empty element has been found.  Let's use this. */""", "unit map overwrites a live entry when the bucket chain has a certain length")
+mut("c14_create_unit_twice_on_user_to_user", "C14", "include/abti_unit.h",
+    """        ABTI_unit_unmap_thread(p_global, unit);
+        ABT_pool old_pool = ABTI_pool_get_handle(p_thread->p_pool);
+        p_thread->p_pool->required_def.p_free_unit(old_pool, unit);
+        p_thread->unit = new_unit;""",
+    """        ABTI_unit_unmap_thread(p_global, unit);
+        p_thread->unit = new_unit;""", "moving between two user pools leaks the old unit (free_unit not called)")
 mut("c01_fifo_no_second_empty_check", "C01", "pool/thread_queue.h",
     None, None, "placeholder")
 mut("c03_join_no_final_wait", "C03", "thread.c",
